@@ -62,6 +62,11 @@ type rule struct {
 	posOf  map[int]*node    // position -> node
 	exps   [][]entry        // every expansion (lists bounded by 2 elements)
 	hasMid bool
+	// forceFL: record first()/last() even in actions where they can land on an extracted action
+	// or lookahead nonterminal (the generator fails with an internal error on those at present)
+	forceFL  bool
+	noFL     bool // record no first()/last() at all (pairs: keeps the action texts of both rules identical)
+	flHelper bool // some action records first()/last() that can land on such a helper symbol
 }
 
 // ---- references
@@ -373,11 +378,32 @@ func (r *rule) analyse() {
 			refs = append(refs, ref{Text: fmt.Sprintf("${self[%d].offset}", p-1), Class: "index.offset", sel: 1, prop: 1, posns: []int{p}})
 			refs = append(refs, ref{Text: fmt.Sprintf("${self[%d].endoffset}", p-1), Class: "index.endoffset", sel: 1, prop: 2, posns: []int{p}})
 		}
-		refs = append(refs,
-			ref{Text: "${first().offset}", Class: "first.offset", sel: 2, prop: 1},
-			ref{Text: "${first().endoffset}", Class: "first.endoffset", sel: 2, prop: 2},
-			ref{Text: "${last().offset}", Class: "last.offset", sel: 3, prop: 1},
-			ref{Text: "${last().endoffset}", Class: "last.endoffset", sel: 3, prop: 2})
+		// first()/last(): where do they land?
+		hFirst, hLast := false, false
+		for _, e := range r.exps {
+			for i, en := range e {
+				if en.k == kAct && en.act == a && i > 0 {
+					hFirst = hFirst || e[0].pos == 0
+					hLast = hLast || e[i-1].pos == 0
+				}
+			}
+		}
+		if r.noFL {
+			a.refs = refs
+			continue
+		}
+		if !hFirst || r.forceFL {
+			r.flHelper = r.flHelper || hFirst
+			refs = append(refs,
+				ref{Text: "${first().offset}", Class: "first.offset", sel: 2, prop: 1},
+				ref{Text: "${first().endoffset}", Class: "first.endoffset", sel: 2, prop: 2})
+		}
+		if !hLast || r.forceFL {
+			r.flHelper = r.flHelper || hLast
+			refs = append(refs,
+				ref{Text: "${last().offset}", Class: "last.offset", sel: 3, prop: 1},
+				ref{Text: "${last().endoffset}", Class: "last.endoffset", sel: 3, prop: 2})
+		}
 		a.refs = refs
 	}
 }
@@ -660,8 +686,9 @@ var catalogue = []itemDef{
 	{"(s s)+", func(a *alloc) *node { return &node{k: kList, elem: []string{a.sym(), a.sym()}} }},
 	{"set(s|s)[x]", func(a *alloc) *node { return &node{k: kSet, set: []string{a.sym(), a.sym()}, alias: a.alias()} }},
 	{"(s (s|s)?)?", func(a *alloc) *node {
+		first := S(a.sym())
 		inner := &node{k: kOpt, paren: true, alts: [][]*node{{{k: kChoice, alts: [][]*node{{S(a.sym())}, {S(a.sym())}}}}}}
-		return &node{k: kOpt, paren: true, alts: [][]*node{{S(a.sym()), inner}}}
+		return &node{k: kOpt, paren: true, alts: [][]*node{{first, inner}}}
 	}},
 	{"(s?|P)[x]", func(a *alloc) *node {
 		return &node{k: kChoice, alts: [][]*node{{{k: kOpt, alts: [][]*node{{S(a.sym())}}}}, {S("P")}}, alias: a.alias()}
